@@ -262,6 +262,9 @@ func (m *Message) Clone() *Message {
 	return &Message{
 		Ctx:    m.Ctx,
 		Record: m.Record.Clone(),
+		// A record filtered out by a processor stays filtered in every branch
+		// of a fan-out, otherwise the destinations would write it.
+		filtered: m.filtered,
 	}
 }
 
